@@ -48,10 +48,12 @@ func RunsTest(bits []bool) (float64, float64) {
 	if bits[n-1] {
 		Pi++
 	}
+	// 1-π 由 0 的个数直接得到：π 接近 1 时 1.0-Pi 存在相消误差（n=10^6 仅 1 个 0 时 P 偏差约 2e-8）
+	Qi := (float64(n) - Pi) / float64(n)
 	Pi /= float64(n)
 
 	// Step 3, 第四、五步的除math.Sqrt(2)，放到这里提前处理，减少math.Sqrt的调用。
-	V := (float64(V_obs) - 2.0*float64(n)*Pi*(1.0-Pi)) / (2.0 * math.Sqrt(float64(2*n)) * Pi * (1.0 - Pi))
+	V := (float64(V_obs) - 2.0*float64(n)*Pi*Qi) / (2.0 * math.Sqrt(float64(2*n)) * Pi * Qi)
 
 	// Step 4
 	P = math.Erfc(math.Abs(V))
